@@ -68,9 +68,11 @@ def audit_log(ctx, st, pre_bytes, results, agents, epic, trace):
     return False
 
 
-def parked_schedules(ctx, r, big=0, torn=False):
+def parked_schedules(ctx, r, big=0, torn=False, skew=False):
     base, v, trace = crash.build_state(ctx, r, 6 + r.n(8), weights={"new_task": 50, "new_epic": 8, "set": 14, "sequence": 14, "plan": 6}, big=big, torn=torn)
     try:
+        if skew and not torn:
+            crash.add_skewed_history(base, r, trace)
         pre = base.graph()
         if "err" in pre:
             return
@@ -118,9 +120,11 @@ def parked_schedules(ctx, r, big=0, torn=False):
         base.close()
 
 
-def free_running(ctx, r, torn=False):
+def free_running(ctx, r, torn=False, skew=False):
     base, v, trace = crash.build_state(ctx, r, 8 + r.n(10), weights={"new_task": 60, "new_epic": 6, "set": 10, "sequence": 12, "plan": 6}, torn=torn)
     try:
+        if skew and not torn:
+            crash.add_skewed_history(base, r, trace)
         n = 2 + r.n(5)
         pre_bytes = base.log_bytes()
         agents = ["ag%d" % i for i in range(n)]
@@ -142,9 +146,9 @@ def run(ctx):
         ctx.tie_broken("T2-fn readyTasks", {"first_difference": fndiff.first_difference(d["go"], d["model"])})
     r = gen.Rng(ctx.seed * 1000003 + 1)
     for i in range(4 if ctx.quick else 60):
-        parked_schedules(ctx, r.fork(), big=(250 if i % 2 == 0 else 0), torn=(i % 4 == 3))      # large logs make the Go runtime collect inside the lock section
+        parked_schedules(ctx, r.fork(), big=(250 if i % 2 == 0 else 0), torn=(i % 4 == 3), skew=(i % 4 == 1))      # large logs make the Go runtime collect inside the lock section
     for i in range(12 if ctx.quick else 300):
-        free_running(ctx, r.fork(), torn=(i % 3 == 1))          # every third on a log that ends in the fragment of a killed writer
+        free_running(ctx, r.fork(), torn=(i % 3 == 1), skew=(i % 3 == 2))          # every third on a log that ends in the fragment of a killed writer
     # a claimer against every other kind of writer (compact and plan replace the log file, prune and set change what is ready), also on a
     # store whose log still has the legacy name: the claim must land in the log every reader reads, and the reply must be true
     for i in range(6 if ctx.quick else 120):
